@@ -16,6 +16,7 @@ import ModVerif.Proofs.ModfileC20Ignore
 import ModVerif.Proofs.ModfileC20ModFinal
 import ModVerif.Proofs.ModfileC20Comment
 import ModVerif.Proofs.ModfileC20End
+import ModVerif.Proofs.ModfileC20AppendFinal
 namespace ModVerif.Props.C20
 open ModVerif ModVerif.Modfile
 
@@ -317,6 +318,74 @@ example :
      | .ok f, .ok g => decide (f.module.map (·.mod) = g.module.map (·.mod) ∧ f.go.map (·.version) = g.go.map (·.version) ∧
                                 f.require.map (·.mod) = g.require.map (·.mod))
      | _, _ => false) = true := by decide +kernel
+
+/-- `lax_ignores_unknown`, statement-list form with SHIFTED positions and line identities: the values of
+    the lax typed state (module path / version / deprecation, go version, requirements with their indirect
+    mark, retractions with rationale) and the kinds of the errors are the same for the list `A ++ B₁` and
+    the list `A ++ I ++ B₂`, when `I` holds only ignored statements and `B₁`, `B₂` are the same statements
+    `B` moved by two different shifts of positions (lines, bytes) and line identities — which is what
+    inserting source lines between two statements does to the statements after the insertion point.  Any
+    fixer; the two start states may differ in their syntax tree. -/
+theorem lax_ignores_unknown_values (fix : Option Fixer) (A B I : List Expr) (s1 s2 : Proofs.ModfileC20Append.Sh)
+    (st st' : AddState) (hV : Proofs.ModfileC20Append.V st st')
+    (hI : ∀ x ∈ I, Proofs.ModfileC20.laxIgnored x = true) :
+    Proofs.ModfileC20Append.V
+      (addStmts fix false st (A ++ B.map (Proofs.ModfileC20Append.shE s1))).1
+      (addStmts fix false st' (A ++ I ++ B.map (Proofs.ModfileC20Append.shE s2))).1 :=
+  Proofs.ModfileC20Append.lax_vals_insert fix A B I s1 s2 st st' hV hI
+
+/-- Non-vacuity of `lax_ignores_unknown_values`: equal start states are related, and an unknown line is ignored. -/
+example : Proofs.ModfileC20Append.V {} {} ∧
+    Proofs.ModfileC20.laxIgnored (.line { token := [B "frobnicate", B "x"] }) = true :=
+  ⟨⟨rfl, rfl⟩, by decide +kernel⟩
+
+/-- `lax_ignores_unknown` at the level of input bytes, PARTIAL: if the lax parser (no fixer) accepts `x`,
+    and the syntax trees of `x` and `x'` are related as inserting source lines does — the statements of
+    `x'` are those of `x` before the insertion point (`A`), then ignored statements (`I`: lines whose verb
+    is not go / module / retract / require, blocks whose header is not a single block verb lax keeps), then
+    the remaining statements of `x` (`B`) with positions and line identities shifted (`s1` in `x`, `s2` in
+    `x'`) — then the lax parser accepts `x'` with the same module / go / require / retract VALUES (`vals`:
+    everything but the `lineId`s, which shift).
+    What is missing for the full statement: (1) the two tree hypotheses `ht`, `ht'` are ASSUMED here, not
+    derived from `x = a ++ b`, `x' = a ++ ins ++ b`; they are the parser-level composition lemma
+    "`parse (a ++ b)` = statements of `parse a` followed by the shifted statements of `parse b`" (proved so
+    far: its lexer half for comment-free input, `Proofs.ModfileC20Append.readToken_sim` — one token read in
+    the context `pre ++ · ++ suf` is the same token shifted, as long as `pre` is the consumed text and the
+    last newline before `suf` is not yet consumed; the example below checks both tree hypotheses by kernel
+    evaluation); (2) comments: the shift `shE` leaves comment lists untouched, which is what happens in
+    comment-free files only — with comments the attachment of end-of-line comments across the insertion
+    point has to be shown unchanged; (3) a fixer (then `fixRetract` looks lines up by identity). -/
+theorem lax_ignores_unknown_bytes_partial (name x x' : Bytes) (t t' : FileSyntax) (A B I : List Expr)
+    (s1 s2 : Proofs.ModfileC20Append.Sh)
+    (hx : parse name x = .ok t) (hx' : parse name x' = .ok t')
+    (ht : t.stmts = A ++ B.map (Proofs.ModfileC20Append.shE s1))
+    (ht' : t'.stmts = A ++ I ++ B.map (Proofs.ModfileC20Append.shE s2))
+    (hI : ∀ y ∈ I, Proofs.ModfileC20.laxIgnored y = true) (f : File)
+    (hf : parseToFile name x none false = .ok f) :
+    ∃ f', parseToFile name x' none false = .ok f' ∧
+      Proofs.ModfileC20Append.vals f' = Proofs.ModfileC20Append.vals f :=
+  Proofs.ModfileC20Append.parseToFile_insert name x x' t t' A B I s1 s2 hx hx' ht ht' hI f hf
+
+/-- Non-vacuity of `lax_ignores_unknown_bytes_partial` and a kernel-checked instance of the missing parser
+    composition lemma: for `a` = two directive lines, `ins` = an unknown line and an unknown block, `b` = a
+    require line, the trees of `a ++ b` and `a ++ ins ++ b` are the trees of `a`, `ins`, `b` put together
+    with the shifts (lines, bytes, line identities) of the text in front; the inserted statements are
+    ignored; the lax parser accepts `a ++ b`. -/
+example :
+    let n := B "go.mod"
+    let a := B "module example.com/m\ngo 1.21\n"
+    let ins := B "frobnicate x y\nweird (\n\tp q\n)\n"
+    let b := B "require a.b/c v1.0.0\n"
+    let sa : Proofs.ModfileC20Append.Sh := ⟨2, a.length, 2⟩
+    let sai : Proofs.ModfileC20Append.Sh := ⟨6, a.length + ins.length, 4⟩
+    (match parse n a, parse n ins, parse n b, parse n (a ++ b), parse n (a ++ ins ++ b) with
+     | .ok ta, .ok ti, .ok tb, .ok t, .ok t' =>
+       decide (t.stmts = ta.stmts ++ tb.stmts.map (Proofs.ModfileC20Append.shE sa) ∧
+               t'.stmts = ta.stmts ++ ti.stmts.map (Proofs.ModfileC20Append.shE sa) ++
+                 tb.stmts.map (Proofs.ModfileC20Append.shE sai)) &&
+       (ti.stmts.map (Proofs.ModfileC20Append.shE sa)).all Proofs.ModfileC20.laxIgnored
+     | _, _, _, _, _ => false) = true ∧
+    (parseToFile n (a ++ b) none false).toOption.isSome = true := by decide +kernel
 
 /-! ### ModulePath -/
 
